@@ -2,7 +2,9 @@
 import t2t, corr, semrun, sem, gen
 
 OBLIGATIONS = ['Yalafi.C09_genRepl_nil', 'Yalafi.C09_setMacro_lookup', 'Yalafi.C09_setMacro_other', 'Yalafi.C09_pyIndex', 'Yalafi.C09_genRepl_subst',
-               'Yalafi.C09_newcommand_e2e', 'Yalafi.C09_newcommand_example_current']
+               'Yalafi.C09_newcommand_e2e', 'Yalafi.C09_newcommand_example_current',
+               'Yalafi.C09_newcommand_args_e2e', 'Yalafi.C09_newcommand_args_kept_e2e', 'Yalafi.C09_newcommand_args_current',
+               'Yalafi.C09_newcommand_args_simple_current', 'Yalafi.C09_newcommand_args_current_ref', 'Yalafi.C09_newcommand_args_current_e2e']
 
 BODY_ONLY = {'c_group', 'c_unknown', 'c_vanish', 'c_ref', 'c_usermacro', 'c_cite', 'c_inline_math', 'c_itemize', 'c_footnote',
              'c_newcommand', 'c_def', 'c_env_unknown'}
